@@ -25,11 +25,9 @@ THEOREMS = [
     "C15_message_value: parse_value_raw s = PErr e at, no bare CR at / right before at -> e has a cause or a context (Value::from_str)",
     "C15_message_value_refuted: the value `[CR]` has an empty message (same known finding C15-empty-message-bare-cr)",
     "C15_message_key_path: parse_key_path s = PErr e at -> e has a cause or a context (Key::parse; no side condition)",
-    "C15_message_key: key_head_b s = true (s starts with a quotation mark, an apostrophe or an unquoted-key character), parse_key s = PErr e at "
-    "-> e has a cause or a context (Key::from_str; no bare-CR premise)",
-    "C15_message_key_empty, C15_message_key_refuted, C15_message_key_refuted_bang: key_head_b s = false -> parse_key s = PErr err0 (Some 0): "
-    "the empty input and every input starting with another byte (`!`) are rejected with an EMPTY message "
-    "(finding C15-empty-message-key-start; the side condition is exact)",
+    "C15_message_key: parse_key s = PErr e at -> e has a cause or a context (Key::from_str; no side condition: simple_key carries "
+    "the context Label(\"key\") around its whole dispatch; Example C15_ex_key_start_repaired: the empty input, `!` and a lone CR, "
+    "which had an EMPTY message before that context was added, now carry it)",
 ]
 RULE = ("valid generated documents (multi-byte characters in keys, strings, comments) x truncation at every character boundary, "
         "single-byte insertion/substitution/deletion at every position from a small byte set, gen_toml.mutate, multi-byte characters "
@@ -122,23 +120,6 @@ def empty_class(text, f):
     return None
 
 
-KEY_START = frozenset(b"\"'-_" + bytes(range(0x30, 0x3A)) + bytes(range(0x41, 0x5B)) + bytes(range(0x61, 0x7B)))
-
-
-def empty_key_start_class(case, text, f):
-    """decidable classifier of the finding C15-empty-message-key-start (= key_head_b s = false in
-    coq/Proofs/EoiMsg.v, theorems C15_message_key / C15_message_key_empty): Key::from_str on an input that
-    is empty or starts with a byte no simple key can start with (not a quotation mark, an apostrophe or an
-    unquoted-key character) is rejected at offset 0 with an empty message: parser/key.rs `simple_key` has
-    no context of its own and neither `peek(any)` nor `take_while(1.., UNQUOTED_CHAR)` attaches one."""
-    if case.cmd != "kerr" or f.get("msg") != "empty" or f.get("span") in (None, "none"):
-        return None
-    a = int(f["span"].split("-")[0])
-    if a == 0 and (len(text) == 0 or text[0] not in KEY_START):
-        return "C15-empty-message-key-start"
-    return None
-
-
 def oracle(case, line):
     if case.cmd == "deerr":
         return oracle_deerr(case, line)
@@ -174,9 +155,7 @@ def known_class(case, line):
     f = fields(line)
     if err_checks(text, f):
         return None            # something else is wrong as well: never masked
-    # Key::from_str has no bare-CR class of its own (C15_message_key has no such premise): a key that starts with a CR is
-    # the key-start finding
-    return empty_key_start_class(case, text, f) or empty_class(text, f)
+    return empty_class(text, f)
 
 
 def nontrivial(case, line):
